@@ -6,7 +6,8 @@ From Coq Require Import ZArith Floats List Bool Lia Reals.
 From SyGen Require Import SrcConstants.
 From SyModel Require Import Threshold.
 From SyModel Require Import Engine.
-From SyProofs Require Import Threshold_proofs Threshold_std Threshold_flocq Engine_proofs.
+From SyProofs Require Import Threshold_proofs Threshold_std Threshold_flocq Engine_proofs Guard_proofs.
+Import ListNotations.
 Open Scope Z_scope.
 
 (* the coded floating-point test, evaluated by the kernel, for every destination of up to NMAX = 200 entries *)
@@ -69,6 +70,30 @@ Theorem C07_guard_fires : forall rf ds c now U keep src dst,
   r_refused (run rf ds c now U keep src dst) = true.
 Proof. exact refuses_when_guard_fires. Qed.
 Print Assumptions C07_guard_fires.
+
+(* THE WHOLE PROPERTY IN ONE STATEMENT: the engine of Model/Engine.v run with the guard as coded (Threshold.refuse on binary64).
+   Unless --force-delete is given, if the deletions planned by --delete exceed --delete-threshold percent of the destination's
+   entries (exactly, over the integers), the run is refused: the destination is exactly what it was -- no entry created, updated
+   or deleted --, no event is reported and the exit status is 1.  For EVERY source listing, filter, comparison mode and
+   destination of fewer than 2^45 entries, every threshold the command line accepts. *)
+Theorem C07_mass_deletion_is_refused_before_any_change : forall ds c now U keep src dst,
+  let listing := filter (fun p => match dst p with Some _ => true | None => false end) U in
+  let dels := plan_deletions (keep ++ src) listing in
+  let r := run (refuse false) ds c now U keep src dst in
+  c_delete c = true -> c_force_delete c = false ->
+  0 <= c_threshold c <= 100 -> Z.of_nat (length listing) < 2^45 ->
+  c_threshold c * Z.of_nat (length listing) < 100 * Z.of_nat (length dels) ->
+  r_refused r = true /\ r_fs r = dst /\ r_events r = nil /\ exit_status c r = 1.
+Proof. exact mass_deletion_refused. Qed.
+Print Assumptions C07_mass_deletion_is_refused_before_any_change.
+
+(* non-vacuity: a destination of three stale files over an empty source, default threshold *)
+Example C07_whole_property_example :
+  let c := mk_cfg true false 50 false false false false 100 100 in
+  let dst : fs := fun p => if peqb p [1%N] then Some (File 1 1 1) else if peqb p [2%N] then Some (File 2 2 2) else if peqb p [3%N] then Some (File 3 3 3) else None in
+  let r := run (refuse false) (fun _ => (0%N, 0)) c 9 [[1%N]; [2%N]; [3%N]] [] [] dst in
+  r_refused r = true /\ exit_status c r = 1.
+Proof. vm_compute. split; reflexivity. Qed.
 
 (* Observation (not a violation of C07): exactly at the threshold the float test may refuse although the
    exact ratio does not exceed it *)
